@@ -91,10 +91,16 @@ pub open spec fn call_return(p0: PState, pc: PState) -> PState {
 pub open spec fn callee_of(c: Call) -> Option<CodeBlock> {
     if c.fn_hash == dyn_constant_spec() { Some(CodeBlock::Dyn(Dyn {})) } else { (the_env().cbt)(c.fn_hash) }
 }
+/// `caller` yields "the hash of the procedure which initiated the parent context"
+/// (execution_contexts.md): the target named by the CALL node, or - for dyncall - the MAST root on
+/// top of the stack when the call is made
+pub open spec fn entered_hash(c: Call, s: Seq<Felt>) -> Seq<Felt> {
+    if c.fn_hash == dyn_constant_spec() { top_word(s) } else { c.fn_hash.word()@ }
+}
 #[verifier::external_body]
 pub proof fn rule_call(c: Call, body: CodeBlock, p0: PState, pc: PState, t: Seq<Operation>)
     requires !c.is_syscall, !p0.g.in_syscall, callee_of(c) == Some(body),
-        exec_rel(body, call_entry(p0, c.fn_hash.word()@), pc, t), pc.s.len() == 16
+        exec_rel(body, call_entry(p0, entered_hash(c, p0.s)), pc, t), pc.s.len() == 16
     ensures exec_rel(CodeBlock::Call(c), p0, call_return(p0, pc), seq![Operation::Call] + t + seq![Operation::End]) {}
 /// a syscall reaches kernel procedures only
 #[verifier::external_body]
